@@ -71,6 +71,11 @@ pub fn check(c: &Case, ctx: &mut Ctx) -> Result<(), Failure> {
         fp.f(bar.c);
         fp.f(bar.h);
         fp.f(bar.v);
+        // "any history" includes reset() (only in the `resets` stage, tele.rs; never inside the compared suffix)
+        if crate::tele::due_reset() {
+            a.reset();
+            ctx.label("reset_inside_prefix");
+        }
         crate::tele::step(&mut a, &c.cfg);
         if scalar || (k.scalar() && crate::tele::scalar_here()) {
             a.next_scalar(bar.c);
@@ -306,6 +311,8 @@ pub fn run(g: &mut Global) {
     g.random("random", g.tier.pick(150000, 3000000), &strategy, &check);
     // identity events (tele.rs): at one or two steps the instance is replaced by its clone, by a used instance
     // (same or longer periods) that clone_from()s it, or by its serde round trip; nothing may change
+    // histories that contain reset() (at a multiple of the period, next to it, anywhere in the prefix; possibly twice)
+    g.random("resets", g.tier.pick(30000, 400000), &|| crate::tele::wrap_resets(strategy()), &|t: &crate::tele::TCase<Case>, ctx: &mut Ctx| crate::tele::check_wrapped(t, ctx, t.case.prefix.len().max(1), t.case.cfg.n(), check));
     g.random("events", g.tier.pick(20000, 400000), &|| crate::tele::wrap(strategy()), &|t: &crate::tele::TCase<Case>, ctx: &mut Ctx| crate::tele::check_wrapped(t, ctx, t.case.gen_prefix.as_ref().map(|g| g.1).unwrap_or(0) + t.case.prefix.len() + t.case.suffix.len(), t.case.cfg.n(), check));
     // windows far beyond 1024 slots: prefix of about two windows at several ring phases, suffix w or w+1
     let bigp: Vec<(Kind, usize)> = {
